@@ -77,7 +77,7 @@ def unwind_bound(d, N, m):
 
 def settings(d, tier):
     if tier == "thorough":
-        return d.get("Nt", d["N"] + 1), d.get("mt", d["m"])
+        return d.get("Nt", d["N"] + 1 if d["m"] == 1 else d["N"]), d.get("mt", d["m"])
     return d["N"], d["m"]
 
 
